@@ -9,6 +9,11 @@ import (
 
 	"github.com/gogo/protobuf/proto"
 
+	bc "github.com/kardiachain/go-kardia/blockchain"
+	"github.com/kardiachain/go-kardia/configs"
+	"github.com/kardiachain/go-kardia/lib/log"
+	"github.com/kardiachain/go-kardia/lib/p2p"
+	bcproto "github.com/kardiachain/go-kardia/proto/kardiachain/blockchain"
 	"github.com/kardiachain/go-kardia/consensus"
 	"github.com/kardiachain/go-kardia/lib/common"
 	kcons "github.com/kardiachain/go-kardia/proto/kardiachain/consensus"
@@ -347,6 +352,7 @@ func TestKnownTxFetchPeerGone(t *testing.T) {
 	w.txR.Receive(0x30, peer, encTx(&prototx.PooledTransactionHashes{Hashes: [][]byte{h.Bytes()}}))
 	w.sw.StopPeerGracefully(peer) // the peer disconnects: RemovePeer -> peers.Unregister + fetcher.Drop
 	var err error
+	acct = newAccount(true)
 	r := guarded(func() { err = w.txR.VerifC18FetchTx(string(peer.ID()), []common.Hash{h}) })
 	var c collector
 	text := func() string { return "txpool fetch callback for a removed peer" }
@@ -363,4 +369,50 @@ func TestKnownTxFetchPeerGone(t *testing.T) {
 	if err == nil && len(c.keys) == 0 {
 		ev.Violation(t, "txpool.fetch-callback.no-error-for-gone-peer", text(), "fetchTx returned nil for a peer that has been removed; the fetcher then waits for a delivery that cannot come")
 	}
+}
+
+// ---------------------------------------------------------------- D15 (fixed): block response that does not decode
+
+const keyD15 = "lock-left-held:blockchain.reactor.mtx"
+
+// TestFixedD15BlockResponseLock: block responses whose block does not convert (BlockFromProto fails in several ways) to
+// a syncing block-sync reactor; afterwards the reactor's lock must be free (stage 5) - the writer that updates the sync
+// height would otherwise block forever. Regression test of ae19df8.
+func TestFixedD15BlockResponseLock(t *testing.T) {
+	w := getBSWorld(t)
+	defer closeBSWorld()
+	bad := map[string]func(b *kproto.Block){
+		"nil-block":            nil,
+		"no-lastcommit":        func(b *kproto.Block) { b.LastCommit = nil },
+		"short-validatorshash": func(b *kproto.Block) { b.Header.ValidatorsHash = b.Header.ValidatorsHash[:5] },
+		"bad-commitsig-flag":   func(b *kproto.Block) { b.LastCommit.Signatures[0].BlockIdFlag = 9 },
+		"empty":                func(b *kproto.Block) { *b = kproto.Block{} },
+		"junk-tx":              func(b *kproto.Block) { b.Data.Txs = [][]byte{{0xff, 0xff}} },
+	}
+	for name, f := range bad {
+		r := bc.NewBlockchainReactor(w.fresh.CS.VerifState(), w.fresh.Exec, w.fresh.BOps, configs.DefaultFastSyncConfig())
+		sw := newSwitch(map[string]p2p.Reactor{"BLOCKCHAIN": r})
+		r.SetLogger(log.New())
+		events := make(chan bc.VerifC18Event, 100)
+		r.VerifC18SetEvents(events)
+		peer := newPeer()
+		_ = sw.VerifC18AddPeer(peer)
+		var pb *kproto.Block
+		if f != nil {
+			pb = cloneBlock(w.blocks[2])
+			f(pb)
+		}
+		data := encBC(&bcproto.BlockResponse{Block: pb})
+		probes := []lockProbe{probeRW("blockchain.reactor.mtx", &r.VerifC18Mtx().RWMutex)}
+		text := func() string { return fmt.Sprintf("blocksync mode=syncing BlockResponse/%s 40:%x", name, data) }
+		acct = nil
+		var c collector
+		res := guarded(func() { r.Receive(bc.BlockchainChannel, peer, data) })
+		oracle(t, c.report, "blocksync Receive(BlockResponse/"+name+")", "alloc.blocksync.receive", res, len(data), probes, text)
+		ev.Case(true, text(), "directed", "directed:D15")
+		for i, k := range c.keys {
+			ev.Violation(t, k, text(), "%s", c.msgs[i])
+		}
+	}
+	ev.Sample("directed:D15", fmt.Sprintf("%d malformed block responses to a syncing reactor, reactor lock free after each", len(bad)))
 }
